@@ -98,7 +98,11 @@ func statAll(store *transactionOnly, paths []string) ([]hackpadfs.FileInfo, []er
 	errs := make([]error, len(paths))
 	results, err := getFileRecords(store, paths)
 	if err != nil {
-		return nil, []error{err}
+		// callers index infos and errs by path: report the failure for every path
+		for i := range errs {
+			errs[i] = err
+		}
+		return infos, errs
 	}
 	for i := range paths {
 		path := paths[i]
